@@ -138,6 +138,14 @@ class Path:
     def holds(self, atom: str) -> bool | None:
         return self.val.get(atom)
 
+    def conds(self) -> dict[str, bool]:
+        """Every atom decided along the path (first decision), including atoms later killed by a store."""
+        out: dict[str, bool] = {}
+        for e in self.evs:
+            if e.kind == "cond" and e.text not in out:
+                out[e.text] = bool(e.extra.get("truth"))
+        return out
+
     def sig(self) -> str:
         return " ; ".join(f"{'' if v else '!'}{a}" for a, v in self.val.items())
 
@@ -176,7 +184,11 @@ class Cfg:
     max_inline_depth = 4
     max_paths = 20000
     havoc_on_acquire = True
+    freeze_locals = False
     record_subscripts = True
+
+    def is_shared_read(self, text: str, st: "St") -> bool:
+        return True
 
     def __init__(self, program: Program):
         self.program = program
@@ -685,11 +697,26 @@ class Enumerator:
     def _acquire(self, st: St, text: str, node: ast.AST, via: str = "with") -> None:
         self.emit(st, "acquire", text, node, via=via)
         if self.cfg.havoc_on_acquire:
-            # other threads may have changed shared state while we waited for the lock
-            for k in [k for k in st.val if "self." in k or "self._" in k]:
-                del st.val[k]
-            for k in [k for k in st.env if k.startswith("self.")]:
-                del st.env[k]
+            self._havoc_shared(st)
+
+    def _havoc_shared(self, st: St) -> None:
+        """Other threads may have changed shared state while we waited for the lock / on the condition: forget what
+        was known about `self.` state, and freeze locals that hold earlier reads of it (an earlier read is a different
+        value from a fresh read of the same expression)."""
+        for k in [k for k in st.val if "self." in k]:
+            del st.val[k]
+        for k in [k for k in st.env if k.startswith("self.")]:
+            del st.env[k]
+        if not self.cfg.freeze_locals:
+            return
+        for k, t in list(st.env.items()):
+            if isinstance(t, ast.FunctionDef) or k == "self" or "." in k:
+                continue
+            if isinstance(t, ast.Name):
+                continue
+            txt = render(t)
+            if "self." in txt and any(isinstance(n, (ast.Subscript, ast.Call)) for n in ast.walk(t)) and self.cfg.is_shared_read(txt, st):
+                st.env[k] = ast.Name(f"{k}'", ast.Load())
 
     # ---------------------------------------------------------------- binding
     def bind(self, tgt: ast.expr, term: ast.expr, st: St, stmt: ast.AST, *, quiet: bool = False, aug: bool = False):
@@ -930,10 +957,7 @@ class Enumerator:
                     timed = bool(call.args or call.keywords)
                     self.emit(st, "wait", recv, orig, timed=timed)
                     if self.cfg.havoc_on_acquire:
-                        for k in [k for k in st.val if "self." in k]:
-                            del st.val[k]
-                        for k in [k for k in st.env if k.startswith("self.")]:
-                            del st.env[k]
+                        self._havoc_shared(st)
                     return [(st, call, None)]
                 self.emit(st, "notify", recv, orig, all=call.func.attr == "notify_all")
                 return [(st, call, None)]
